@@ -659,4 +659,125 @@ theorem timerP_indG_loc (s : BP α) (h : LocalTo G s.cs s.toks) : IndG G (timerP
 
 end comp
 
+/-! ### the step loop, `parse_block`, one block -/
+section block
+variable {G : List Nat}
+
+theorem stepOne_indG_loc (s : BP α) (h : LocalTo G s.cs s.toks) : IndG G (stepOne (α := α)) s := by
+  unfold stepOne
+  refine IndG.bind (m := (do
+    match ← peekK with
+    | some .at => withRecover ingredientP
+    | some .hash => withRecover cookwareP
+    | some .tilde => withRecover timerP
+    | _ => return none : P α (Option (Ev α)))) ?_ ?_
+  · refine IndG.bindRO peekK_indA rfl ?_
+    intro k
+    split
+    · exact IndG.withRecover (ingredientP_indG_loc s h)
+    · exact IndG.withRecover (cookwareP_indG_loc s h)
+    · exact IndG.withRecover (timerP_indG_loc s h)
+    · exact IndG.pure _ _
+  · refine (IndGA.of_indA (?_ : IndA _)).all _
+    ind_auto
+
+theorem stepLoop_indG_loc (fuel : Nat) (s : BP α) (h : LocalTo G s.cs s.toks) :
+    IndG G (stepLoop (α := α) fuel) s := by
+  induction fuel generalizing s with
+  | zero =>
+    unfold stepLoop
+    refine (IndGA.of_indA (?_ : IndA _)).all _
+    ind_auto
+  | succ fuel ih =>
+    unfold stepLoop
+    refine IndG.bindRO restToks_indA rfl ?_
+    intro r
+    split
+    · exact IndG.pure _ _
+    · refine IndG.bindS (stepOne_indG_loc s h) (Q := fun _ _ => True) trivial ?_
+      intro _ s1 ht1 hcs1 _ _
+      exact ih s1 (by rw [ht1, hcs1]; exact h)
+
+theorem parseStep_indG_loc (s : BP α) (h : LocalTo G s.cs s.toks) : IndG G (parseStep (α := α)) s := by
+  unfold parseStep
+  refine IndG.bindS (IndG.of_ind ((pushEv_indA _).all s)) (Q := fun _ _ => True) trivial ?_
+  intro _ s1 ht1 hcs1 _ _
+  refine IndG.bindRO restToks_indA rfl ?_
+  intro r
+  refine IndG.bind (stepLoop_indG_loc _ s1 (by rw [ht1, hcs1]; exact h)) ?_
+  exact IndG.of_ind ((pushEv_indA _).all _)
+
+theorem parseMultilineBlock_indG_loc (s : BP α) (h : LocalTo G s.cs s.toks) :
+    IndG G (parseMultilineBlock (α := α)) s := by
+  unfold parseMultilineBlock
+  refine IndG.bindRO allToks_indA rfl ?_
+  intro all
+  split
+  · refine (IndGA.of_indA (?_ : IndA _)).all _
+    ind_auto
+  · refine IndG.bindRO peekK_indA rfl ?_
+    intro k
+    split
+    · exact IndG.of_ind (parseTextBlock_indA.all s)
+    · exact parseStep_indG_loc s h
+
+theorem parseBlock_indG_loc (oldStyle : Bool) (s : BP α) (hc : s.cur = 0) (h : LocalTo G s.cs s.toks) :
+    IndG G (parseBlock (α := α) oldStyle) s := by
+  unfold parseBlock
+  refine IndG.bindS (Q := fun _ _ => True) (m := (do
+    match ← peekK with
+    | some .metaStart => withRecover do
+      match ← metadataEntry with
+      | some (.metadata key value) =>
+        let cs := (← get).cs
+        let modes ← hasExt Gen.EXT_MODES
+        if (isConfigKey cs key && modes) || oldStyle then return some (.metadata key value) else return none
+      | _ => return none
+    | some .eq => withRecover sectionP
+    | _ => return none : P α (Option (Ev α)))) ?_ trivial ?_
+  · rcases h.modes with h7 | hm
+    · refine (?_ : IndGA G _).all s
+      indg_auto
+    · apply IndG.of_ind
+      refine Ind.bindRO peekK_indA rfl ?_
+      intro k
+      split
+      · apply Ind.withRecover
+        refine Ind.bindS' (metadataEntry_indA.all s) (Q := fun r _ => r = (metadataEntry s).1) rfl ?_
+        intro r s1 ht1 hcs hr
+        split
+        · rename_i key value
+          have hkey := metadataEntry_key s hc key value hr.symm
+          have hnc : isConfigKey s1.cs key = false := by
+            unfold metaKeyCore at hm
+            rw [hkey] at hm
+            rw [hcs]
+            simpa using hm
+          refine Ind.getBind (fun _ => rfl) ?_
+          dsimp only
+          refine Ind.hasExtBind ?_ ?_
+          · intro b e
+            simp only [hnc, Bool.false_and]
+          · refine (?_ : IndA _).all _
+            ind_auto
+        · exact Ind.pure _ _
+      · exact Ind.withRecover (sectionP_indA.all s)
+      · exact Ind.pure _ _
+  · intro r s1 ht1 hcs1 _ _
+    cases r with
+    | some ev => exact IndG.of_ind ((pushEv_indA _).all _)
+    | none => exact parseMultilineBlock_indG_loc s1 (by rw [ht1, hcs1]; exact h)
+
+/-- Locality of the parser flags, one block: if for every parser flag outside `G` the block does not
+    contain the syntax that flag reinterprets (`LocalTo`), two extension sets that agree on the
+    flags of `G` give the same events and panic flag, whatever events came before. -/
+theorem runBlock_local (cs : CharSpec) (e₁ e₂ : Ext) (oldStyle : Bool) (block : List Tok)
+    (evs : Array (Ev α)) (p : Option String) (ha : AgreeOn G e₁ e₂) (h : LocalTo G cs block) :
+    runBlock cs e₁ oldStyle block evs p = runBlock cs e₂ oldStyle block evs p :=
+  runBlock_of_indG cs e₁ e₂ oldStyle block evs p ha
+    (runBlockBody_indG oldStyle ⟨block, 0, e₁, cs, evs, p⟩ rfl
+      (fun s1 hc1 ht1 hcs1 => parseBlock_indG_loc oldStyle s1 hc1 (by rw [ht1, hcs1]; exact h)))
+
+end block
+
 end Cook
